@@ -201,6 +201,324 @@ theorem mrsjson_stable_needs_charspan : ∃ (o : Opts) (m : MRS), Filled m ∧ t
 theorem mrsjson_stable_twice (o : Opts) (m : MRS) : toDict o (viewJ o (viewJ o m)) = toDict o (viewJ o m) :=
   toDict_viewJ_viewJ o m
 
+
+/-! ## pins: the constants of the anchored code that the models hand-code (read from the live code on
+every run into Verif/Generated/TablesC01.lean; literal copies here) -/
+
+/-- PINS, delphin/codecs/simplemrs.py.  The (regex, name) pairs of `SimpleMRSLexer.tokens` in order are what
+`Lex.step` (Lexer.lean: `mLnk`, `scanDQ`, `sqOk`, `mPred`, `featOk`, `runLt symOk`, `lnkish`, `posChars`) hand-codes,
+class by class in this order, and what `K` names; `_ESCAPES`/`_UNESCAPES` and the constants of `_escape`/`_unescape`
+are `escapeDQ`/`unescapeDQ`; the character class of `_encode_predicate` is `needsQuote`; the feature names, the
+`LTOP`/`TOP` pair, `LBL`, `CARG`, the token-class and method names (`upper`, `lower`, `accept_type`, `expect_type`,
+`peek`) of the `_decode_*` functions are what `parse`, `parseFeatures`, `parseRel`, `parseArgs`, `parseVar`,
+`parseProps`, `parseCons`, `parsePred`, `parseLnk` mirror; the format strings and section names of the `_encode_*`
+functions are what `toks`, `encRel`, `encVar`, `section_`, `encHcons`, `encIcons` and `Lex.render` mirror.
+A change to any of them must be followed in the model: this theorem stops checking. -/
+theorem c01_pins_simplemrs :
+    c01SimpleLexer =
+      ["\\[", "LBRACK:[", "\\]", "RBRACK:]", "<(?:-?\\d+[:#]-?\\d+|@\\d+|\\d+(?: +\\d+)*)>",
+       "LNK:a lnk value", "\"([^\"\\\\]*(?:\\\\.[^\"\\\\]*)*)\"", "DQSTRING:a string",
+       "'([^ \\n:<>\\[\\]]+)", "SQSYMBOL:a quoted symbol",
+       "_[^\\s_]+_[nvajrscpqxud](?:_(?:[^\\s_<]|<(?![-0-9:#@ ]*>\\s))+)?(?:_rel)?",
+       "PREDICATE:a surface predicate", "<", "LANGLE:<", ">", "RANGLE:>", "([^\\s:<>\\[\\]]+):",
+       "FEATURE:a feature", "(?:[^ \\n\\]<]+|<(?![-0-9:#@ ]*>\\s))+", "SYMBOL:a symbol", "[^\\s]",
+       "UNEXPECTED"]
+    ∧ c01SimpleEscapes =
+      ["\\", "\\\\", "\"", "\\\""]
+    ∧ c01SimpleUnescapes =
+      ["\\\\", "\\", "\\\"", "\""]
+    ∧ c01Simple_decode =
+      ["|", "SimpleMRSLexer", "lex", "peek", "_decode_mrs", "StopIteration"]
+    ∧ c01Simple_decode_mrs =
+      ["(LTOP,TOP)", "INDEX", "RELS", "0", "HCONS", "ICONS", "(icons,variables,lnk,surface,identifier)", "|",
+       "expect_type", "LBRACK", "_decode_lnk", "_decode_dqstring", "accept_type", "DQSTRING", "FEATURE",
+       "upper", "SYMBOL", "lower", "_decode_variable", "LANGLE", "peek", "append", "_decode_rel", "RANGLE",
+       "_decode_cons", "HCons", "ICons", "ValueError", "RBRACK", "MRS"]
+    ∧ c01Simple_decode_lnk =
+      ["|", "accept_type", "LNK", "Lnk"]
+    ∧ c01Simple_decode_dqstring =
+      ["|", "_unescape"]
+    ∧ c01Simple_decode_variable =
+      ["|", "expect_type", "SYMBOL", "lower", "accept_type", "LBRACK", "FEATURE", "upper", "RBRACK"]
+    ∧ c01Simple_decode_rel =
+      ["LBL", "CARG", "(args,lnk,surface,base)", "|", "expect_type", "LBRACK", "_decode_predicate",
+       "_decode_lnk", "_decode_dqstring", "accept_type", "DQSTRING", "expect", "FEATURE", "SYMBOL", "upper",
+       "_decode_variable", "RBRACK", "EP", "lower"]
+    ∧ c01Simple_decode_predicate =
+      ["1", "|", "accept_type", "DQSTRING", "_decode_dqstring", "choice_type", "SQSYMBOL", "PREDICATE",
+       "SYMBOL", "predicate", "normalize"]
+    ∧ c01Simple_decode_cons =
+      ["|", "_decode_variable", "expect_type", "SYMBOL", "lower"]
+    ∧ c01Simple_encode =
+      [" ", "\n"]
+    ∧ c01Simple_encode_mrs =
+      ["\n  ", " ", "[ {} ]", " "]
+    ∧ c01Simple_encode_surface_info =
+      ["\"{}\""]
+    ∧ c01Simple_encode_hook =
+      ["\n  ", " ", "{}: {}", "INDEX: {}"]
+    ∧ c01Simple_encode_variable =
+      ["[", "(key)", ":", "]", " "]
+    ∧ c01Simple_encode_rels =
+      ["\n  ", " ", "RELS: < ", "[", "\"{}\"", "LBL:", "(key)", ":", "]", "RELS: <", ">"]
+    ∧ c01Simple_encode_predicate =
+      ["[\\s\\\"':<>[\\]]", "\""]
+    ∧ c01Simple_encode_hcons =
+      ["{} {} {}", "HCONS: <", " ", ">"]
+    ∧ c01Simple_encode_icons =
+      ["{} {} {}", "ICONS: <", " ", ">"]
+    ∧ c01Simple_escape =
+      [""]
+    ∧ c01Simple_unescape =
+      ["0", "\\", "1", "2", ""]
+    ∧ c01Simpledecode =
+      []
+    ∧ c01Simpleloads =
+      [] := by
+  refine ⟨?_, ?_, ?_, ?_, ?_, ?_, ?_, ?_, ?_, ?_, ?_, ?_, ?_, ?_, ?_, ?_, ?_, ?_, ?_, ?_, ?_, ?_, ?_, ?_⟩ <;> rfl
+
+/-- PINS, delphin/codecs/indexedmrs.py.  `_IndexedMRSLexer.tokens` in order is what `Ix.KI` names (the Indexed
+lexer itself is not modelled: the harness feeds the real lexer's tokens); the constants and names of
+`_decode_indexed`, `_decode_proplist`, `_decode_rels`, `_decode_rel`, `_find_synopsis`, `_decode_arglist`,
+`_decode_cons`, `_match_properties` are mirrored by `Ix.parseIx`, `parsePropList`, `parseRelLoop`, `parseRelI`,
+`findDec`, `parseArgList`, `parseConsI`, `matchProps`; those of `_encode_indexed` (the un-indented format strings),
+`_prepare_variable_properties`, `_encode_variable`, `_encode_rel`, `_encode_hcons/_icons`, `_escape`, `_unescape`
+by `Ix.toksIx`, `prepProps`, `encVarI`, `encRelI`, `encConsI`, `escapeDQ`, `unescapeDQ`. -/
+theorem c01_pins_indexedmrs :
+    c01IndexedLexer =
+      ["<-?\\d+:-?\\d+>", "LNK:a lnk value", "\"([^\"\\\\]*(?:\\\\.[^\"\\\\]*)*)\"", "DQSTRING:a string",
+       "<", "LANGLE:<", ">", "RANGLE:>", "\\{", "LBRACE:{", "\\}", "RBRACE:}", "\\(", "LPAREN:(", "\\)",
+       "RPAREN:)", ",", "COMMA:,", ":", "COLON::", "[^\\s\"\\'()\\/,:;<=>[\\]{}]+", "SYMBOL:a symbol",
+       "[^\\s]", "UNEXPECTED"]
+    ∧ c01Indexed_decode =
+      ["|", "_IndexedMRSLexer", "lex", "peek", "_decode_indexed", "StopIteration"]
+    ∧ c01Indexed_decode_indexed =
+      ["(top,index,rels,hcons,icons,variables,lnk,surface,identifier)", "|", "expect_type", "LANGLE",
+       "SYMBOL", "COMMA", "accept_type", "COLON", "_decode_proplist", "_decode_rels", "_decode_cons",
+       "HCons", "ICons", "RANGLE", "_match_properties", "MRS"]
+    ∧ c01Indexed_decode_proplist =
+      ["|", "expect_type", "SYMBOL", "accept_type", "COLON", "append"]
+    ∧ c01Indexed_decode_rels =
+      ["0", "|", "expect_type", "LBRACE", "peek", "RBRACE", "append", "_decode_rel", "accept_type", "COMMA"]
+    ∧ c01Indexed_decode_rel =
+      ["0", "(args,lnk,surface,base)", "|", "expect_type", "SYMBOL", "COLON", "_decode_lnk",
+       "_decode_arglist", "variable", "type", "_find_synopsis", "CONSTANT_ROLE", "dict", "zip", "EP"]
+    ∧ c01Indexed_decode_lnk =
+      ["|", "accept_type", "LNK", "Lnk"]
+    ∧ c01Indexed_find_synopsis =
+      ["|", "normalize_predicate", "predicates", "name", "CONSTANT_ROLE", "len", "Synopsis", "subsumes",
+       "variables", "find_synopsis"]
+    ∧ c01Indexed_decode_arglist =
+      ["0", "|", "expect_type", "LPAREN", "peek", "RPAREN", "choice_type", "SYMBOL", "DQSTRING",
+       "accept_type", "COLON", "_decode_proplist", "append", "_unescape", "COMMA"]
+    ∧ c01Indexed_decode_cons =
+      ["0", "|", "expect_type", "LBRACE", "peek", "RBRACE", "SYMBOL", "append", "accept_type", "COMMA"]
+    ∧ c01Indexed_match_properties =
+      ["1", "0", "|", "properties", "subsumes", "items", "variables", "variable", "type", "len", "all", "zip"]
+    ∧ c01Indexed_encode =
+      [" ", "\n"]
+    ∧ c01Indexed_encode_indexed =
+      [",{{{}}}", ",", "<", ">", "{},{}", "2", ",\n", " ", "{{", "1", "{} }}", "  ", ", ", "< ", " >",
+       "{}, {}", ""]
+    ∧ c01Indexed_prepare_variable_properties =
+      []
+    ∧ c01Indexed_encode_variable =
+      [":", ""]
+    ∧ c01Indexed_encode_rel =
+      ["\"{}\"", "{label}:{pred}{lnk}({args})", "", "(label,pred,lnk,args)"]
+    ∧ c01Indexed_encode_hcons =
+      ["{} {} {}"]
+    ∧ c01Indexed_encode_icons =
+      ["{} {} {}"]
+    ∧ c01Indexed_escape =
+      ["\\", "\\\\", "\"", "\\\""]
+    ∧ c01Indexed_unescape =
+      ["0", "\\", "1", "2", ""] := by
+  refine ⟨?_, ?_, ?_, ?_, ?_, ?_, ?_, ?_, ?_, ?_, ?_, ?_, ?_, ?_, ?_, ?_, ?_, ?_, ?_, ?_⟩ <;> rfl
+
+/-- PINS, delphin/lnk.py, predicate.py, variable.py, sembase.py, mrs/_mrs.py.  Lnk: type numbers, the
+characters `< > @ : #` of `__init__` and the format strings of `__str__`, the `(-1, -1)` of `__bool__`, the `-1`
+defaults of `cfrom`/`cto` — `Codec.Lnk`, `Lnk.parse`, `Lnk.str`, `Lnk.truthy`, `Lnk.cfrom/cto`.  predicate: the
+lemma/pos/sense patterns, the strict and the robust pattern with their flags, `_strip_predicate` (`"`, `'`,
+`_rel`, `lower`), `normalize` (`lower`), `create`, `split`, `is_surface`, `is_abstract` — `stripPred`,
+`normalizePred`, `isSurface`, `isAbstract`, `splitSurface`, `createPred`, `goodPart`, `isPos`.  variable:
+`_variable_re` — `varSplit`, `validVar`.  sembase: the constants of `role_priority` (`LBL`, `(BODY,CARG)`, `upper`)
+and of `property_priority` — `roleKey`, `roleLe`, `propIndex`, `propLe` (the property list itself is
+`c01CommonProperties`).  _mrs: the role constants, `_0`/`_`/`q` of `EP.__init__`, the visiting order names of
+`_fill_variables` — `CARG`, `fillOrder`, `fillVars`. -/
+theorem c01_pins_lnk_predicate_variable :
+    c01LnkTypes =
+      ["0", "1", "2", "3", "4"]
+    ∧ c01LnkInit =
+      ["1", "-1", "(<,>)", "@", ":", "#", "|", "Lnk", "UNSPECIFIED", "type", "data", "startswith", "EDGE",
+       "int", "split", "CHARSPAN", "CHARTSPAN", "TOKENS", "tuple", "map", "LnkError", "format"]
+    ∧ c01LnkStr =
+      ["", "<{}:{}>", "0", "1", "<{}#{}>", "<@{}>", "<{}>", " "]
+    ∧ c01LnkBool =
+      ["(-1,-1)"]
+    ∧ c01LnkCfrom =
+      ["-1", "0"]
+    ∧ c01LnkCto =
+      ["-1", "1"]
+    ∧ c01PredPatterns =
+      ["[^\\s_]+", "[acdjnpqrsuvx]", "34", "[^\\s_]+", "(_[^\\s_]+_[acdjnpqrsuvx](?:_[^\\s_]+)?)$|([^\\s_]\\S*)$", "34",
+       "_?(?P<lemma>[^\\s_]+(?:_[^\\s_]+)*?)(?:_(?P<pos>[acdjnpqrsuvx]))?(?:_(?P<sense>[^\\s_]+))?(?:_rel)?$", "34"]
+    ∧ c01Pred_strip_predicate =
+      ["\"", "1", "-1", "'", "-4", "_rel", "|", "startswith", "endswith", "lower"]
+    ∧ c01Predsplit =
+      ["lemma", "pos", "sense", "|", "_strip_predicate", "_robust_predicate_re", "match", "PredicateError",
+       "group"]
+    ∧ c01Predcreate =
+      ["_", "|", "_lemma_re", "fullmatch", "PredicateError", "lower", "_POS", "_sense_re", "append", "join"]
+    ∧ c01Prednormalize =
+      ["|", "_strip_predicate", "lower"]
+    ∧ c01Predis_surface =
+      ["1", "|", "_strip_predicate", "_strict_predicate_re", "match", "lastindex"]
+    ∧ c01Predis_abstract =
+      ["2", "|", "_strip_predicate", "_strict_predicate_re", "match", "lastindex"]
+    ∧ c01VariableRe =
+      ["^([-\\w]*[^\\s\\d])(\\d+)$", "32"]
+    ∧ c01VariableSplit =
+      ["1", "2", "|", "_variable_re", "match", "ValueError", "group"]
+    ∧ c01VariableType =
+      ["0", "|", "split"]
+    ∧ c01RolePriority =
+      ["LBL", "(BODY,CARG)", "|", "upper"]
+    ∧ c01PropertyPriority =
+      ["|", "_COMMON_PROPERTY_INDEX", "get", "upper", "len", "_COMMON_PROPERTIES"]
+    ∧ c01MrsRoles =
+      ["ARG0", "RSTR", "BODY", "CARG", "q"]
+    ∧ c01EPInit =
+      ["_0", "_"]
+    ∧ c01FillVariables =
+      ["|", "label", "args", "items", "CONSTANT_ROLE", "lo", "hi", "left", "right"] := by
+  refine ⟨?_, ?_, ?_, ?_, ?_, ?_, ?_, ?_, ?_, ?_, ?_, ?_, ?_, ?_, ?_, ?_, ?_, ?_, ?_, ?_, ?_⟩ <;> rfl
+
+/-- PINS, delphin/codecs/mrx.py.  Tag names, attribute names, the `h` of `_decode_label`, the method names
+(`find`, `findall`, `iter`, `get`, `upper`, `lower`, `setdefault`) and ElementPath strings (`./`, `hi/var`, `lo/`,
+`left/var`, `right/var`) of the `_decode_*` helpers — `ofXml`, `dLabel`, `dVar`, `dPred`, `dArgs`, `dEp`, `dHcons`,
+`dIcons`, `dLnk`; the tags and attributes of the `_encode_*` helpers — `toXml`, `xLabel`, `xVar`, `xExtrapair`,
+`xPred`, `xArgs`, `xEp`, `xHcons`, `xIcons`, `lnkAttrs`; the indentation regex of `_tostring` (not modelled:
+oracle only) is pinned so that a change is noticed. -/
+theorem c01_pins_mrx :
+    c01Mrx_decode =
+      ["(end)", "(events)", "mrs", "|", "etree", "iterparse", "tag", "_decode_mrs", "clear"]
+    ∧ c01Mrx_decode_mrs =
+      [".", "label", "var", "(variables)", "ep", "hcons", "icons", "cfrom", "cto", "surface", "ident",
+       "(icons,variables,lnk,surface,identifier)", "|", "find", "_decode_label", "_decode_var", "iter",
+       "_decode_ep", "_decode_hcons", "_decode_icons", "MRS", "_decode_lnk", "get"]
+    ∧ c01Mrx_decode_label =
+      ["vid", "h", "|", "get"]
+    ∧ c01Mrx_decode_var =
+      ["vid", "sort", "extrapair", "|", "get", "lower", "setdefault", "_decode_extrapairs", "iter"]
+    ∧ c01Mrx_decode_extrapairs =
+      ["path", "value", "|", "find", "text", "upper", "lower"]
+    ∧ c01Mrx_decode_ep =
+      ["(variables)", "./", "label", "cfrom", "cto", "surface", "base", "(args,lnk,surface,base)", "|",
+       "_decode_args", "EP", "_decode_pred", "find", "_decode_label", "_decode_lnk", "get"]
+    ∧ c01Mrx_decode_pred =
+      ["(pred,spred)", "realpred", "lemma", "pos", "sense", "|", "tag", "text", "predicate", "create", "get"]
+    ∧ c01Mrx_decode_args =
+      ["fvpair", "rargname", "constant", "var", "(variables)", "|", "findall", "find", "text", "upper",
+       "_decode_var"]
+    ∧ c01Mrx_decode_hcons =
+      ["hi/var", "lo/", "var", "hreln", "|", "_decode_var", "find", "tag", "_decode_label", "HCons", "get"]
+    ∧ c01Mrx_decode_icons =
+      ["left/var", "ireln", "right/var", "|", "ICons", "_decode_var", "find", "get"]
+    ∧ c01Mrx_decode_lnk =
+      ["|", "ValueError", "Lnk", "charspan"]
+    ∧ c01Mrx_encode =
+      ["mrs-list"]
+    ∧ c01Mrx_encode_mrs =
+      ["cfrom", "cto", "surface", "ident", "mrs", "(attrib)"]
+    ∧ c01Mrx_encode_label =
+      ["label", "(vid)"]
+    ∧ c01Mrx_encode_variable =
+      ["var", "(vid,sort)", "(key)"]
+    ∧ c01Mrx_encode_extrapair =
+      ["extrapair", "path", "value"]
+    ∧ c01Mrx_encode_ep =
+      ["cfrom", "cto", "surface", "base", "ep", "(attrib)", "(key)"]
+    ∧ c01Mrx_encode_pred =
+      ["(lemma,pos)", "sense", "realpred", "(attrib)", "pred", "spred"]
+    ∧ c01Mrx_encode_arg =
+      ["fvpair", "rargname"]
+    ∧ c01Mrx_encode_constant =
+      ["constant"]
+    ∧ c01Mrx_encode_hcon =
+      ["hcons", "(hreln)", "hi", "lo"]
+    ∧ c01Mrx_encode_icon =
+      ["icons", "(ireln)", "left", "right"]
+    ∧ c01Mrx_tostring =
+      ["unicode", "(encoding)", "0", "\n", " ",
+       "(</mrs-list>)|(<mrs[^-]|</mrs>)|(<ep[>\\s]|<fvpair>|<extrapair>|<hcons\\s|<icons\\s>)"] := by
+  refine ⟨?_, ?_, ?_, ?_, ?_, ?_, ?_, ?_, ?_, ?_, ?_, ?_, ?_, ?_, ?_, ?_, ?_, ?_, ?_, ?_, ?_, ?_, ?_⟩ <;> rfl
+
+/-- PINS, delphin/codecs/mrsjson.py (dictionary keys of `to_dict`/`from_dict` — `toDict`, `fromDict`; the
+`indent` normalisation constants of encode/dumps/dump), delphin/semi.py (`STRING_TYPE`, `TOP_TYPE`, the per-role
+checks of `Synopsis.subsumes` and `SemI.find_synopsis` — `Ix.fitsSeq`, `fitsMap`, `roleFits`, `findEnc`,
+`findSeq`, `lookupPred`), delphin/util.py (the 1024-token look-ahead buffer and `Lexer.prelex` — `Lex.lexLine`,
+`Lex.lex`, and the long-document cases of the harness), and the default arguments of
+encode/decode/dumps/loads/dump/load of the four codecs (properties=True, lnk=True, indent=False/None,
+encoding='utf-8') on which generators and oracle rely. -/
+theorem c01_pins_json_semi_api :
+    c01Json_to_dict =
+      ["(label,predicate,arguments)", "(from,to)", "lnk", "surface", "base", "(relation,high,low)",
+       "(relation,left,right)", "type", "properties", "(top,index,relations,constraints,variables)"]
+    ∧ c01Json_from_dict =
+      ["from", "to", "predicate", "label", "arguments", "lnk", "surface", "base", "(args,lnk,surface,base)",
+       "high", "relation", "low", "left", "relation", "right", "constraints", "high", "left", "variables",
+       "properties", "top", "index", "relations", "lnk", "surface", "identifier",
+       "(icons,variables,lnk,surface,identifier)"]
+    ∧ c01Json_encode =
+      ["2", "(properties,lnk)", "(indent)"]
+    ∧ c01Json_decode =
+      []
+    ∧ c01Json_dumps =
+      ["2", "(properties,lnk)", "(indent)"]
+    ∧ c01Json_loads =
+      []
+    ∧ c01Json_dump =
+      ["2", "(properties,lnk)", "write", "(indent)", "w", "(encoding)"]
+    ∧ c01Json_load =
+      ["read"]
+    ∧ c01SemiTypes =
+      ["string", "*top*"]
+    ∧ c01SemiSubsumes =
+      ["", "|", "lower", "len", "isinstance", "Sequence", "list", "zip_longest", "Mapping", "name", "set",
+       "union", "upper", "get", "lower", "append", "TypeError", "__class__", "__name__", "optional",
+       "STRING_TYPE", "value", "subsumes"]
+    ∧ c01SemiFindSynopsis =
+      ["", "|", "normalize_predicate", "predicates", "SemIError", "subsumes", "variables", "format", "repr"]
+    ∧ c01LookaheadDefaults =
+      ["1024", "1024"]
+    ∧ c01LexerPrelex =
+      ["1", "0", "(lineno,offset,text)", "|", "_re", "finditer", "tokentypes", "UNEXPECTED", "enumerate",
+       "lastindex", "start", "_errcls", "group", "StopIteration"]
+    ∧ c01DefaultsSimple =
+      ["encode:", "True", "True", "False", "decode:", "dumps:", "True", "True", "False", "loads:", "dump:",
+       "True", "True", "False", "'utf-8'", "load:"]
+    ∧ c01DefaultsMrx =
+      ["encode:", "True", "True", "False", "decode:", "dumps:", "True", "True", "False", "loads:", "dump:",
+       "True", "True", "False", "'utf-8'", "load:"]
+    ∧ c01DefaultsJson =
+      ["encode:", "True", "True", "False", "decode:", "dumps:", "True", "True", "False", "loads:", "dump:",
+       "True", "True", "False", "'utf-8'", "load:"]
+    ∧ c01DefaultsIndexed =
+      ["encode:", "True", "True", "False", "decode:", "dumps:", "True", "True", "False", "loads:", "False",
+       "'utf-8'", "dump:", "True", "True", "False", "'utf-8'", "load:"] := by
+  refine ⟨?_, ?_, ?_, ?_, ?_, ?_, ?_, ?_, ?_, ?_, ?_, ?_, ?_, ?_, ?_, ?_, ?_⟩ <;> rfl
+
+/-- summary pin: both lexers have the eleven / twelve token classes, in the order the models' kinds
+`K` (LBRACK RBRACK LNK DQSTRING SQSYMBOL PREDICATE LANGLE RANGLE FEATURE SYMBOL, then UNEXPECTED) and
+`Ix.KI` (LNK DQSTRING LANGLE RANGLE LBRACE RBRACE LPAREN RPAREN COMMA COLON SYMBOL, then UNEXPECTED)
+assume; the full literal comparison is in the five `c01_pins_*` theorems above. -/
+theorem c01_pins :
+    (c01SimpleLexer.length = 22 ∧ c01SimpleLexer[21]? = some "UNEXPECTED" ∧ c01SimpleLexer[11]? = some "PREDICATE:a surface predicate")
+    ∧ (c01IndexedLexer.length = 24 ∧ c01IndexedLexer[23]? = some "UNEXPECTED" ∧ c01IndexedLexer[21]? = some "SYMBOL:a symbol") := by
+  rw [c01_pins_simplemrs.1, c01_pins_indexedmrs.1]
+  refine ⟨⟨?_, ?_, ?_⟩, ⟨?_, ?_, ?_⟩⟩ <;> rfl
+
 /-! ## non-vacuity and concrete instances (tests, labelled as such) -/
 
 def exM : MRS :=
